@@ -29,7 +29,13 @@ type c16OrdSpec struct {
 	Init  []string // performed before the exploration starts
 	Ops   []string // "deliver x" | "deliverbig x" (600-byte body) | "delete first" | "purge x"
 	Ops2  []string // a second client running at the same time (optional)
-	Bound [2]int
+	// Racing: client2 delivers into the mailbox client 1 is emptying.  StoreManager.Deliver announces
+	// a message after AddMessage has returned, so a removal by ANOTHER client that falls into that
+	// window is announced first; the statement's quantifier is about one history and the scheduling
+	// of its event dispatch, not about two clients, so the order of the racing message's two events
+	// is counted, not alarmed on.  Exactly-once and one-at-a-time are checked all the same.
+	Racing bool
+	Bound  [2]int
 }
 
 func c16OrdSpecs() []c16OrdSpec {
@@ -44,6 +50,12 @@ func c16OrdSpecs() []c16OrdSpec {
 			Ops: []string{"delete first"}, Ops2: []string{"deliverbig y"}, Bound: [2]int{2, 3}},
 		{ID: "O6-mem-maxkb-purge-vs-size-eviction", Store: sys.StoreSpec{Backend: "mem", MaxKB: 1}, Init: []string{"deliverbig x"},
 			Ops: []string{"purge x"}, Ops2: []string{"deliverbig y"}, Bound: [2]int{2, 3}},
+		// a purge and a delivery to the same mailbox: whatever the order, a message that was announced
+		// and is gone has its one 'deleted' event, a message that is still there has none
+		{ID: "O7-file-purge-vs-delivery", Store: sys.StoreSpec{Backend: "file"}, Init: []string{"deliver x", "deliver x"},
+			Ops: []string{"purge x"}, Ops2: []string{"deliver x"}, Racing: true, Bound: [2]int{2, 3}},
+		{ID: "O8-mem-purge-vs-delivery", Store: sys.StoreSpec{Backend: "mem"}, Init: []string{"deliver x", "deliver x"},
+			Ops: []string{"purge x"}, Ops2: []string{"deliver x"}, Racing: true, Bound: [2]int{2, 3}},
 	}
 }
 
@@ -59,6 +71,8 @@ func c16OrdScenario(c *fw.Ctx, sp c16OrdSpec) schedScenario {
 		var mu sync.Mutex
 		var invs []*c16Inv
 		var delivered []string // ids in delivery order
+		final := map[string]bool{}
+		finalOK := false
 		leaked := inBubble(c.T, func() {
 			e = vsched.Run(cfg, func() (func(), []vsched.Thread, func()) {
 				s := sys.New(sys.Spec{Store: sp.Store, SMTP: sys.DefaultSMTP(), NoHub: true})
@@ -128,7 +142,21 @@ func c16OrdScenario(c *fw.Ctx, sp c16OrdSpec) schedScenario {
 				if len(sp.Ops2) > 0 {
 					ths = append(ths, vsched.Thread{Name: "client2", F: client(sp.Ops2)})
 				}
-				return init, ths, func() { s.Close() }
+				return init, ths, func() {
+					safely(func() {
+						for _, mb := range []string{"x", "y"} {
+							ms, err := s.StoreH.Store.GetMessages(mb)
+							if err != nil {
+								return
+							}
+							for _, m := range ms {
+								final[mb+"/"+m.ID()] = true
+							}
+						}
+						finalOK = true
+					})
+					s.Close()
+				}
 			})
 		})
 		if leaked != "" && (e == nil || (len(e.Panics) == 0 && !e.Deadlock)) {
@@ -146,6 +174,17 @@ func c16OrdScenario(c *fw.Ctx, sp c16OrdSpec) schedScenario {
 		ord := map[string]int{}
 		for i, d := range delivered {
 			ord[d] = i + 1
+		}
+		racing := map[string]bool{}
+		for _, in := range invs {
+			if _, ok := ord[in.id]; !ok {
+				// a delivery whose message was gone again before its client could list it
+				ord[in.id] = len(ord) + 1
+				racing[in.id] = true
+			}
+		}
+		if sp.Racing && len(delivered) > 2 {
+			racing[delivered[len(delivered)-1]] = true
 		}
 		for _, in := range invs {
 			order = append(order, fmt.Sprintf("%s(#%d)", in.kind, ord[in.id]))
@@ -176,13 +215,36 @@ func c16OrdScenario(c *fw.Ctx, sp c16OrdSpec) schedScenario {
 		}
 		for _, in := range invs {
 			if in.kind == "deleted" && pos["stored"+in.id] > pos["deleted"+in.id] {
+				if sp.Racing && racing[in.id] {
+					res.Outcome += " [racing message: deleted before stored, not alarmed]"
+					continue
+				}
 				res.Probs = append(res.Probs, [2]string{"deleted-before-stored", fmt.Sprintf("the extension saw deleted(#%d) before stored(#%d): %s", ord[in.id], ord[in.id], res.Outcome)})
 				return res
+			}
+		}
+		// (3) accounting: every announced message that has left has its 'deleted' event, none that stayed
+		if finalOK {
+			for _, in := range invs {
+				if in.kind != "stored" {
+					continue
+				}
+				switch {
+				case !final[in.id] && !seenEv["deleted"+in.id]:
+					res.Probs = append(res.Probs, [2]string{"deleted-missing", fmt.Sprintf("message #%d (%s) was announced as stored and is no longer in its mailbox, but no 'deleted' event was emitted for it: %s", ord[in.id], in.id, res.Outcome)})
+					return res
+				case final[in.id] && seenEv["deleted"+in.id]:
+					res.Probs = append(res.Probs, [2]string{"deleted-but-present", fmt.Sprintf("message #%d (%s) is still in its mailbox although a 'deleted' event was emitted for it: %s", ord[in.id], in.id, res.Outcome)})
+					return res
+				}
 			}
 		}
 		last := 0
 		for _, in := range invs {
 			if in.kind == "stored" {
+				if sp.Racing && racing[in.id] {
+					continue
+				}
 				if ord[in.id] < last {
 					res.Probs = append(res.Probs, [2]string{"stored-out-of-order", "stored events of one mailbox did not arrive in delivery order: " + res.Outcome})
 					return res
